@@ -116,6 +116,9 @@ def run(tier="quick", seed=0, replay=None):
         print(open(replay).read())
         return 1
     core.lean_stage(chk, "C12")
+    from harness import cover
+    _cv = cover.Cover(['ixai/utils/tracker/multi_value.py'])
+    _cv.__enter__()
     quick = tier == "quick"
     reqs, impls = [], []
     for i in range(150 if quick else 2000):
@@ -170,6 +173,8 @@ def run(tier="quick", seed=0, replay=None):
         chk.violation("zero-sum:" + name, f"MultiValueTracker({base}) with {name} values {vals}: normalised view is {norm}, not all zeros",
                       {"type": name, "base": base, "values": vals})
     chk.stat("type_sweep_cases", 36)
+    _cv.__exit__(None, None, None)
+    cover.gate(chk, _cv, only_functions=['MultiValueTracker'])
     chk.exhaustive = False
     chk.extra["explanation"] = ("Theorems about the MV model for every update history and both base kinds; model tied to multi_value.py by "
                                 "exact-arithmetic runs on histories with changing key sets; property oracle and numeric-type sweep on "
